@@ -191,6 +191,12 @@ def _range_job(job):
             acc.count('evaluations', tmp.n.get('evaluations', 0))
             for v in tmp.viol:
                 acc.violation(Viol('range-with-options', v['cls'] + ':' + v['symptom'], dict(v['case'], range_options=label), v['expected'], v['observed']))
+        try:
+            fullctx = c08.contexts([x.split('\t') for x in kp.dumps(doc, **kw).split('\n') if x])
+        except Exception:
+            fullctx = None
+        enc_name = kw['encoding'].value if 'encoding' in kw else 'kern'
+        header_selected = (('include' not in kw) or TC.HEADER in TC.valid(include=kw['include'])) and TC.HEADER not in TC.valid(include=kw.get('exclude') or set()) if kw.get('exclude') else True
         for a in range(1, M + 1):
             for b in range(a, M + 1):
                 acc.count('transitions')
@@ -209,11 +215,26 @@ def _range_job(job):
                     continue        # no selected spine is alive in that range
                 rows = [x.split('\t') for x in out.split('\n') if x]
                 try:
-                    c08.contexts(rows)
+                    ectx = c08.contexts(rows)
                 except ValueError as e:
                     sym = str(e)
                     sym = 'cell-count-inconsistent-with-spine-operators' if sym.startswith('cell-count') else sym
                     acc.violation(Viol('range-with-options', 'malformed-' + sym, c2, 'well-formed Humdrum', out[:300]))
+                    continue
+                # the header line: '**' + encoding prefix + type of the selected spines alive at the start of the range, in column order
+                if len(starts) == M:
+                    live = [c.spine for c in crows[starts[a - 1]] if c.spine in sel]
+                    if len(live) == len(set(live)) and header_selected:
+                        from ..model import PREFIX
+                        exp_h = ['**' + PREFIX[enc_name] + m.headers[i][2:] for i in live]
+                        if rows[0] != exp_h:
+                            acc.violation(Viol('range-with-options', 'header-line-is-not-prefix-plus-type-of-the-selected-spines', c2, exp_h, rows[0]))
+                # every cell of the excerpt is governed by the same clef / key / time signature as in the whole export under the same options
+                if fullctx is not None:
+                    mlen = len(ectx)
+                    if not any(fullctx[i:i + mlen] == ectx for i in range(len(fullctx) - mlen + 1)):
+                        okd = any([x[0] for x in fullctx[i:i + mlen]] == [x[0] for x in ectx] for i in range(len(fullctx) - mlen + 1))
+                        acc.violation(Viol('range-with-options', 'cells-governed-by-other-signatures' if okd else 'cells-differ-from-the-whole-export', c2, None, ectx[:4]))
     return acc
 
 
